@@ -34,6 +34,11 @@ func (e *Exec) callValue(s *State, f *Frame, in ssa.Value, fnv Value, args []Val
 	if in != nil {
 		resType = in.Type()
 	}
+	if s.pure == 0 {
+		if fv, ok := fnv.(*FuncV); !ok || !(fv.Name == "builtin:len" || fv.Name == "builtin:cap") {
+			s.mapEpoch = e.nextEpoch() // the callee may mutate any map
+		}
+	}
 	switch fv := fnv.(type) {
 	case *boundInvoke:
 		iv, ok := fv.recv.(*IfaceV)
@@ -185,7 +190,11 @@ func (e *Exec) atCallAsserts(s *State, f *Frame, full, name string, args []Value
 		if ac.Site > 0 && ac.SitePos != pos {
 			continue
 		}
-		if !(ac.Callee == full || ac.Callee == name || strings.HasSuffix(full, "."+ac.Callee) || strings.HasSuffix(full, ")."+ac.Callee)) {
+		if strings.HasPrefix(ac.Callee, "(") {
+			if shortRecv(full) != ac.Callee {
+				continue
+			}
+		} else if !(ac.Callee == full || ac.Callee == name || strings.HasSuffix(full, "."+ac.Callee) || strings.HasSuffix(full, ")."+ac.Callee)) {
 			continue
 		}
 		var g, h *Term
@@ -572,7 +581,7 @@ func (e *Exec) pureResult(s *State, con *Contract, args []Value, resType types.T
 			// a pointer argument is known by the identity of the object it points to
 			switch {
 			case x.ID != nil:
-				ts = append(ts, x.ID, x.Nil)
+				ts = append(ts, e.c.Ite(x.Nil, BVConst(0, 64), x.ID), x.Nil)
 			case x.Ref != nil && len(x.Ref.Path) == 0:
 				ts = append(ts, BVConst(uint64(x.Ref.Obj.ID), 64), x.Nil)
 			default:
@@ -637,9 +646,7 @@ func (e *Exec) builtin(s *State, f *Frame, name string, args []Value, key ssa.In
 		case *StringV:
 			return x.Len
 		case *OpaqueV:
-			l := c.Fresh("maplen", SBV(64))
-			s.axiom(c.ULe(l, BVConst(maxCap, 64)))
-			return l
+			return e.mapLen(s, x)
 		case *Term, *SoAV, *OpaqueArrV:
 			// array value
 		}
@@ -724,6 +731,7 @@ func (e *Exec) builtin(s *State, f *Frame, name string, args []Value, key ssa.In
 		}
 		return r
 	case "delete", "clear", "close":
+		s.mapEpoch = e.nextEpoch()
 		return nil
 	case "recover":
 		return &IfaceV{Nil: True, ID: BVConst(0, 64)}
@@ -762,7 +770,7 @@ func (e *Exec) mapArr(vals []Value, f func(ts []*Term) *Term) Value {
 		}
 		return n
 	case *OpaqueArrV:
-		return x
+		return e.newOpaqueArr(x.Elem, "mapped", false) // combined or partly havoc'd: nothing is remembered
 	}
 	panic(unsupported(fmt.Sprintf("mapArr on %T", vals[0])))
 }
@@ -979,6 +987,28 @@ func (e *Exec) intrinsic(s *State, f *Frame, full string, fn *ssa.Function, args
 		// library fact: these constructors never return nil and do not modify their arguments
 		e.note("library fact: fmt.Errorf / errors.New return a non-nil error and modify nothing")
 		setRes(&IfaceV{Nil: False, ID: c.Fresh("errid", SBV(64))})
+		return true
+	case "errors.Join":
+		// library fact (package documentation): Join returns nil exactly when every element of errs is nil; it
+		// modifies nothing. Only a call with a literal argument list (constant length) is given the fact.
+		res := &IfaceV{Nil: c.Fresh("joinnil", SBool), ID: c.Fresh("errid", SBV(64))}
+		if sv, ok := args[0].(*SliceV); ok && sv.Base != nil && sv.Len.Const && sv.Len.C <= 8 {
+			e.note("library fact: errors.Join(e1..en) is nil exactly when every ei is nil; it modifies nothing")
+			var all []*Term
+			for k := uint64(0); k < sv.Len.C; k++ {
+				lv := e.load(s, e.sliceElemRef(sv, BVConst(k, 64)))
+				el, ok := lv.(*IfaceV)
+				if !ok {
+					all = nil
+					break
+				}
+				all = append(all, el.Nil)
+			}
+			if all != nil {
+				s.axiom(c.Eq(res.Nil, c.And(all...)))
+			}
+		}
+		setRes(res)
 		return true
 	case "fmt.Sprintf", "fmt.Sprint", "fmt.Sprintln":
 		e.note("library fact: fmt.Sprint* modify nothing (result string unconstrained)")
